@@ -95,7 +95,29 @@ def run(rep):
         except Exception as e:
             rep.count('construct_error:' + type(e).__name__)
             continue
+        # stateful part of the history: on some arrays the source's quantities are computed
+        # (and an index built) BEFORE deriving, so that anything cached on the source and handed
+        # on to derived arrays is exercised; some derivations end with a fill-take
+        warm = rep.rng.random() < 0.4
+        warm_ps = None
+        if warm:
+            try:
+                arr.bounds, arr.total_bounds
+                if rep.rng.random() < 0.5 and len(arr):
+                    warm_ps = rep.rng.choice([1, 2, 512])
+                    arr.build_sindex(page_size=warm_ps)
+                rep.count('warmed-up-source')
+            except Exception:
+                pass
         arr, desc = G.derive(rep.rng, arr, nder)
+        if warm:
+            desc = [('warm', warm_ps)] + desc
+        if warm and rep.rng.random() < 0.6 and len(arr) > 0:
+            arr.bounds
+            idx = [rep.rng.choice([-1, rep.rng.randrange(len(arr))]) for _ in range(rep.rng.randint(1, len(arr) + 2))]
+            arr = arr.take(np.array(idx, dtype='int64'), allow_fill=True)
+            desc = desc + [('filltake', idx)]
+            rep.count('fill-take-after-warm-up')
         if isinstance(arr.data.type, type(None)) or str(arr.data.type) == 'null':
             rep.count('null_typed_skipped')
             continue
@@ -273,7 +295,11 @@ def replay(rep, rp):
     els = un(rp['elements'])
     arr = G.make_array(kind, els, st)
     for d in rp.get('derivation', []):
-        if d[0] == 'slice':
+        if d[0] == 'warm':
+            arr.bounds, arr.total_bounds
+            if d[1] and len(arr):
+                arr.build_sindex(page_size=d[1])
+        elif d[0] == 'slice':
             arr = arr[d[1]:d[2]]
         elif d[0] == 'take':
             arr = arr.take(np.array(d[1], dtype='int64'))
@@ -283,6 +309,9 @@ def replay(rep, rp):
             arr = arr[np.array(d[1], dtype=bool)]
         elif d[0] == 'rev':
             arr = arr[::-1]
+        elif d[0] == 'filltake':
+            arr.bounds
+            arr = arr.take(np.array(d[1], dtype='int64'), allow_fill=True)
     res = impl_all(arr)
     if isinstance(res, tuple):
         print('impl raised', res)
